@@ -17,8 +17,10 @@ import json, sys
 
 CTYPE = {"u64": "uint64_t", "i32": "int32_t", "Pt": "struct Pt", "slice": "struct CSliceRef_u8", "ptr": "const uint8_t *", "void": "void",
          "vptr": "void *", "cvptr": "const void *",
-         "cbPt": "OpaqueCallback_Pt", "cbu64": "OpaqueCallback_u64", "fnptr": "void (*)(int32_t)"}
-CB_ELEM = {"cbPt": ("Pt", "struct Pt"), "cbu64": ("u64", "uint64_t")}
+         "cbPt": "OpaqueCallback_Pt", "cbu64": "OpaqueCallback_u64", "cbraw": "struct Callback_c_void__u64", "fnptr": "void (*)(int32_t)"}
+# cbraw: the same callback written without the alias (`Callback<c_void, u64>` in the Rust signature): in C++ output its
+# type has a comma inside the template argument list
+CB_ELEM = {"cbPt": ("Pt", "struct Pt"), "cbu64": ("u64", "uint64_t"), "cbraw": ("u64", "uint64_t")}
 INST_NAME = {"Box": "CBox_c_void", "Mut": "____c_void", "Ref": "_____c_void"}
 INST_FIELD = {"Box": "struct CBox_c_void instance;", "Mut": "void *instance;", "Ref": "const void *instance;"}
 CTX_NAME = {"none": "NoContext", "Arc": "CArc_c_void", "gen": "Context"}
@@ -132,6 +134,8 @@ def render(model):
     out.append("#include <stdarg.h>\n#include <stdbool.h>\n#include <stdint.h>\n#include <stdlib.h>\n\n")
     foreign = model.get("foreign", False)
     if foreign:
+        # the user's cbindgen.toml lists a system header of its own (sys_includes = ["ctype.h"])
+        out[-1] = out[-1][:-1] + "#include <ctype.h>\n\n"
         out.append("/**\n * A user structure whose name resembles a CGlue pattern.\n */\ntypedef struct FooVtbl {\n    int32_t a;\n    int32_t b;\n} FooVtbl;\n\n")
     out.append("typedef struct Pt {\n    int32_t x;\n    int64_t y;\n    uint8_t z;\n} Pt;\n\n")
     out.append("/**\n * Wrapper around const slices.\n */\ntypedef struct CSliceRef_u8 {\n    const uint8_t *data;\n    uintptr_t len;\n} CSliceRef_u8;\n\n")
@@ -144,8 +148,7 @@ def render(model):
     if foreign and any(x == "Arc" for _, x in pairs):
         # a user structure that holds a context by value: cbindgen puts it after the context type it needs
         out.append("/**\n * A user structure that keeps a context.\n */\ntypedef struct UserKeeper {\n    struct CArc_c_void keep;\n    int32_t n;\n} UserKeeper;\n\n")
-    for cb in callback_kinds(model):
-        mangled, cty = CB_ELEM[cb]
+    for mangled, cty in sorted({CB_ELEM[cb] for cb in callback_kinds(model)}):
         out.append("/**\n * FFI compatible callback.\n */\ntypedef struct Callback_c_void__%s {\n    void *context;\n    bool (*func)(void*, %s);\n} Callback_c_void__%s;\n\n" % (mangled, cty, mangled))
         out.append("typedef struct Callback_c_void__%s OpaqueCallback_%s;\n\n" % (mangled, mangled))
     if foreign:
